@@ -206,6 +206,36 @@ fn read_fault_due() -> bool {
         .unwrap_or(false)
 }
 
+thread_local! {
+    static TL_READ_STALL: Cell<Option<(usize, usize)>> = const { Cell::new(None) };
+}
+/// The `n`-th read-path call (open of a data file for reading, mmap of it) of this thread takes
+/// until `stall_release` (a slow disk); the thread keeps whatever it holds meanwhile.
+pub fn arm_read_stall(n: usize) {
+    TL_READ_STALL.with(|c| c.set(Some((n, 0))));
+}
+pub fn disarm_read_stall() {
+    TL_READ_STALL.with(|c| c.set(None));
+}
+fn read_stall_point() {
+    let due = TL_READ_STALL
+        .try_with(|c| match c.get() {
+            Some((n, seen)) => {
+                c.set(Some((n, seen + 1)));
+                n == seen + 1
+            }
+            None => false,
+        })
+        .unwrap_or(false);
+    if due {
+        STALL_REACHED.store(true, Ordering::SeqCst);
+        let t0 = mono_ns();
+        while !STALL_RELEASE.load(Ordering::SeqCst) && mono_ns() - t0 < 10_000_000_000 {
+            std::thread::sleep(std::time::Duration::from_micros(100));
+        }
+    }
+}
+
 /// The fault (if any) to inject into the fallible call that is about to be made.
 fn due_now() -> Option<FaultKind> {
     if let Some(e) = TL_FAIL_ALL.try_with(|c| c.get()).ok().flatten() {
@@ -346,6 +376,9 @@ unsafe fn do_open(path: *const c_char, flags: c_int, mode: libc::mode_t, label: 
             seterr(e);
             return -1;
         }
+    }
+    if existed && !creating && acc == libc::O_RDONLY && rel.contains(".bitcask.") {
+        read_stall_point();
     }
     if existed && !creating && acc == libc::O_RDONLY && rel.contains(".bitcask.") && read_fault_due() {
         seterr(libc::EMFILE);
@@ -579,6 +612,9 @@ unsafe fn do_mmap(a: *mut c_void, l: usize, p: c_int, f: c_int, fd: c_int, o: i6
             }
         }
     }
+    if fd >= 0 && TL_READ_STALL.try_with(|c| c.get().is_some()).unwrap_or(false) && tracked_fd(fd).is_some() {
+        read_stall_point();
+    }
     if fd >= 0 && TL_READ_FAULT.try_with(|c| c.get().is_some()).unwrap_or(false) && tracked_fd(fd).is_some() && read_fault_due() {
         seterr(libc::ENOMEM);
         return libc::MAP_FAILED;
@@ -602,10 +638,14 @@ thread_local! {
 }
 static STALL_REACHED: AtomicBool = AtomicBool::new(false);
 static STALL_RELEASE: AtomicBool = AtomicBool::new(false);
-/// The next write of this thread to a store file stalls until `stall_release`.
-pub fn stall_next_write_on_this_thread() {
+/// Forget an earlier stall (call on the controlling thread BEFORE the thread that will stall is
+/// started, so that neither flag is touched by two threads).
+pub fn stall_reset() {
     STALL_REACHED.store(false, Ordering::SeqCst);
     STALL_RELEASE.store(false, Ordering::SeqCst);
+}
+/// The next write of this thread to a store file stalls until `stall_release`.
+pub fn stall_next_write_on_this_thread() {
     TL_STALL.with(|c| c.set(true));
 }
 pub fn stall_reached() -> bool {
